@@ -30,7 +30,7 @@ def inline_silent_rules(expr: Expression, rules: Mapping[str, Rule]) -> Expressi
     """Inline silent rules."""
     # A tagged reference is not inlined: the tag would be lost.
     if isinstance(expr, Identifier) and not expr.tag:
-        rule = rules[expr.value]
-        if rule.modifier & SILENT:
+        rule = rules.get(expr.value)
+        if rule and rule.modifier & SILENT:
             return rule.expression
     return expr
